@@ -926,6 +926,67 @@ def rule_r8(F, rep):
     rep.floor(R, n, 10, "make_span call sites in the lexer")
 
 
+def rule_r10(F, rep):
+    R = rep.rule("C14.R10", "a verbatim string is decoded parametrically in its delimiter: lex_verbatim_string (and helpers introduced "
+                 "later) mention no quote character as a constant — every test for, and every emission of, a quote goes through the "
+                 "`delim` parameter. Only the doubled *delimiter* is special inside @'..' / @\"..\"; code that names a quote "
+                 "literally treats the other quote kind specially too (or only one of them)")
+    fn = F.fn("<%s>::lex_verbatim_string" % LEXER)
+    fns = [fn]
+    seen = {fn.q}
+    work = [fn]
+    while work:
+        g = work.pop()
+        for bb, t in g.body.calls():
+            q = t["f"].get("r") if t["f"].get("rlocal") else None
+            if q and q not in seen and (F.is_new_fn(q) or "{closure" in q):
+                h = F.fn_opt(q)
+                if h is not None and h.body is not None:
+                    seen.add(q)
+                    fns.append(h)
+                    work.append(h)
+        for bb, si, st in g.body.assigns():
+            if st["rv"]["k"] == "agg" and st["rv"].get("ak") == "closure" and st["rv"]["d"] not in seen:
+                h = F.fn_opt(st["rv"]["d"])
+                if h is not None:
+                    seen.add(h.q)
+                    fns.append(h)
+                    work.append(h)
+    QUOTES = (0x27, 0x22)
+    n = 0
+    for g in fns:
+        rep.fn(g)
+
+        def consts(node):
+            if isinstance(node, dict):
+                if node.get("k") == "const":
+                    yield node
+                for v in node.values():
+                    if isinstance(v, (dict, list)):
+                        for c in consts(v):
+                            yield c
+            elif isinstance(node, list):
+                for v in node:
+                    for c in consts(v):
+                        yield c
+        for b in g.body.blocks:
+            if b["cleanup"]:
+                continue
+            for c in consts([b["s"], b["t"]]):
+                n += 1
+                bad = None
+                if isinstance(c.get("v"), int) and c["v"] in QUOTES and "t" in c and g.body.ty(c["t"])["s"] in ("u8", "char"):
+                    bad = chr(c["v"])
+                elif isinstance(c.get("str"), str) and c["str"] and all(ch in "'\"" for ch in c["str"]):
+                    bad = c["str"]
+                if bad is not None:
+                    rep.ob(R, "%s|quote-constant" % g.q.rsplit("::", 1)[-1], False)
+                    rep.violation(R, "%s|quote-constant" % g.q, "%s names the quote %r as a constant: verbatim strings must treat only "
+                                  "their own delimiter specially, through the `delim` parameter" % (g.q.rsplit("::", 1)[-1], bad), g.loc)
+    rep.ob(R, "lex_verbatim_string|no-quote-constants", True, {"functions": [g.q for g in fns], "constants scanned": n})
+    rep.floor(R, n, 3, "constants scanned in the verbatim-string lexer")
+
+
 def run(F, rep, tier):
     rep.attempt(rule_r3, F, rep)
     rep.attempt(rule_r2, F, rep)
@@ -936,6 +997,7 @@ def run(F, rep, tier):
     rep.attempt(rule_r7, F, rep)
     rep.attempt(rule_r8, F, rep)
     rep.attempt(rule_r9, F, rep)
+    rep.attempt(rule_r10, F, rep)
     from . import stdlike
     rep.attempt(stdlike.rule_lookalikes, F, rep, "C20.R9")
     rep.assume("text-block indentation stripping, number token values and operator maximal munch are behavioural and not decided")
